@@ -1,4 +1,4 @@
 package main
 
-// extractFuncs translates whitelisted small pure functions statement by statement (added incrementally).
-func extractFuncs(root, specp, fcl, tok *pkg, leandir string) {}
+// Helpers available to emitters: (*pkg).findFunc / findVar / findType / evalInt / evalStr, p.cInt / p.cStr
+// (evaluated top-level constants), leanStr, leanBool, exprName, fail.
